@@ -87,3 +87,44 @@ Example C05_example :
   a_eq (compare_all (mkDec 10 0) (mkDec 100 (-1))) = true /\
   run_func no_engines "AnyOf" [RStr (bs "x"); RNum (mkDec 100 (-1)); RBool true] (VDec (mkDec 1 1)) = Ok (vbool true).
 Proof. vm_compute. repeat split. Qed.
+
+(** End to end (Proofs/E2E.v): the same statements for whole queries `$.a.F(args)`
+    evaluated on documents (maps with any key type, or structs) whose fields
+    are ANY Go carriers of the numbers / plain strings involved, with every
+    argument supplied as a literal or as a path `$.b` into the document;
+    [param_denotes] says what an argument resolves to, [obj_row] what a key
+    holds, [decides o P]: o is a boolean that is true exactly when P. *)
+From Coq Require Import QArith Qabs.
+From Mpath.Generated Require Import FuncTable.
+From Mpath.Proofs Require C06 C06b E2E.
+Import Mpath.Proofs.C06 Mpath.Proofs.C06b Mpath.Proofs.E2E.
+
+Theorem C05_E2E_compare :
+  forall (uni : Lexer.uclass) (eng : engines) (fuel : nat) (inv me q : bool) (u1 u2 u3 : str) (finv : bool) (cur : gv) (a : str) (p : Ast.param) (doc ga : gv) (da db : dec) (qa qb : Q), obj_row a doc ga -> num_carrier ga da -> source_value ga = Some qa -> param_denotes doc p (RNum db) -> dval db == qb -> decides (Eval.eval uni eng (S (S (S (S (S fuel))))) (Eval.NPath (call_path inv me a q u1 finv "Less" [p] u2 u3)) cur doc) (qa < qb) /\ decides (Eval.eval uni eng (S (S (S (S (S fuel))))) (Eval.NPath (call_path inv me a q u1 finv "LessOrEqual" [p] u2 u3)) cur doc) (qa <= qb) /\ decides (Eval.eval uni eng (S (S (S (S (S fuel))))) (Eval.NPath (call_path inv me a q u1 finv "Greater" [p] u2 u3)) cur doc) (qb < qa) /\ decides (Eval.eval uni eng (S (S (S (S (S fuel))))) (Eval.NPath (call_path inv me a q u1 finv "GreaterOrEqual" [p] u2 u3)) cur doc) (qb <= qa) /\ decides (Eval.eval uni eng (S (S (S (S (S fuel))))) (Eval.NPath (call_path inv me a q u1 finv "Equal" [p] u2 u3)) cur doc) (qa == qb) /\ decides (Eval.eval uni eng (S (S (S (S (S fuel))))) (Eval.NPath (call_path inv me a q u1 finv "NotEqual" [p] u2 u3)) cur doc) (~ qa == qb).
+Proof. exact Mpath.Proofs.E2E.E2E_compare. Qed.
+Print Assumptions C05_E2E_compare.
+
+Theorem C05_E2E_compare_path :
+  forall (uni : Lexer.uclass) (eng : engines) (fuel : nat) (inv me q : bool) (u1 u2 u3 : str) (finv : bool) (cur : gv) (pinv pme pq : bool) (pu pus a b : str) (doc ga gb : gv) (da db : dec) (qa qb : Q), obj_row a doc ga -> obj_row b doc gb -> num_carrier ga da -> num_carrier gb db -> source_value ga = Some qa -> source_value gb = Some qb -> decides (Eval.eval uni eng (S (S (S (S (S fuel))))) (Eval.NPath (call_path inv me a q u1 finv "Less" [Ast.FPPath (key_path pinv pme b pq pu pus)] u2 u3)) cur doc) (qa < qb) /\ decides (Eval.eval uni eng (S (S (S (S (S fuel))))) (Eval.NPath (call_path inv me a q u1 finv "LessOrEqual" [Ast.FPPath (key_path pinv pme b pq pu pus)] u2 u3)) cur doc) (qa <= qb) /\ decides (Eval.eval uni eng (S (S (S (S (S fuel))))) (Eval.NPath (call_path inv me a q u1 finv "Greater" [Ast.FPPath (key_path pinv pme b pq pu pus)] u2 u3)) cur doc) (qb < qa) /\ decides (Eval.eval uni eng (S (S (S (S (S fuel))))) (Eval.NPath (call_path inv me a q u1 finv "GreaterOrEqual" [Ast.FPPath (key_path pinv pme b pq pu pus)] u2 u3)) cur doc) (qb <= qa) /\ decides (Eval.eval uni eng (S (S (S (S (S fuel))))) (Eval.NPath (call_path inv me a q u1 finv "Equal" [Ast.FPPath (key_path pinv pme b pq pu pus)] u2 u3)) cur doc) (qa == qb) /\ decides (Eval.eval uni eng (S (S (S (S (S fuel))))) (Eval.NPath (call_path inv me a q u1 finv "NotEqual" [Ast.FPPath (key_path pinv pme b pq pu pus)] u2 u3)) cur doc) (~ qa == qb).
+Proof. exact Mpath.Proofs.E2E.E2E_compare_path. Qed.
+Print Assumptions C05_E2E_compare_path.
+
+Theorem C05_E2E_compare_literal :
+  forall (uni : Lexer.uclass) (eng : engines) (fuel : nat) (inv me q : bool) (u1 u2 u3 : str) (finv : bool) (cur : gv) (a : str) (d : dec) (doc ga : gv) (da : dec) (qa : Q), obj_row a doc ga -> num_carrier ga da -> source_value ga = Some qa -> decides (Eval.eval uni eng (S (S (S (S (S fuel))))) (Eval.NPath (call_path inv me a q u1 finv "Less" [Ast.FPNum d] u2 u3)) cur doc) (qa < dval d) /\ decides (Eval.eval uni eng (S (S (S (S (S fuel))))) (Eval.NPath (call_path inv me a q u1 finv "LessOrEqual" [Ast.FPNum d] u2 u3)) cur doc) (qa <= dval d) /\ decides (Eval.eval uni eng (S (S (S (S (S fuel))))) (Eval.NPath (call_path inv me a q u1 finv "Greater" [Ast.FPNum d] u2 u3)) cur doc) (dval d < qa) /\ decides (Eval.eval uni eng (S (S (S (S (S fuel))))) (Eval.NPath (call_path inv me a q u1 finv "GreaterOrEqual" [Ast.FPNum d] u2 u3)) cur doc) (dval d <= qa) /\ decides (Eval.eval uni eng (S (S (S (S (S fuel))))) (Eval.NPath (call_path inv me a q u1 finv "Equal" [Ast.FPNum d] u2 u3)) cur doc) (qa == dval d) /\ decides (Eval.eval uni eng (S (S (S (S (S fuel))))) (Eval.NPath (call_path inv me a q u1 finv "NotEqual" [Ast.FPNum d] u2 u3)) cur doc) (~ qa == dval d).
+Proof. exact Mpath.Proofs.E2E.E2E_compare_literal. Qed.
+Print Assumptions C05_E2E_compare_literal.
+
+Theorem C05_E2E_compare_storage_invariant :
+  forall (uni : Lexer.uclass) (eng : engines) (fuel : nat) (inv me q : bool) (u1 u2 u3 : str) (finv : bool) (cur : gv) (a : str) (p p' : Ast.param) (doc doc' ga ga' : gv) (da da' db db' : dec) (qa qa' : Q), obj_row a doc ga -> obj_row a doc' ga' -> num_carrier ga da -> num_carrier ga' da' -> source_value ga = Some qa -> source_value ga' = Some qa' -> qa == qa' -> param_denotes doc p (RNum db) -> param_denotes doc' p' (RNum db') -> dval db == dval db' -> forall name : string, In name comparison_names -> Eval.eval uni eng (S (S (S (S (S fuel))))) (Eval.NPath (call_path inv me a q u1 finv name [p] u2 u3)) cur doc = Eval.eval uni eng (S (S (S (S (S fuel))))) (Eval.NPath (call_path inv me a q u1 finv name [p'] u2 u3)) cur doc'.
+Proof. exact Mpath.Proofs.E2E.E2E_compare_storage_invariant. Qed.
+Print Assumptions C05_E2E_compare_storage_invariant.
+
+Theorem C05_E2E_storage_invariant_path :
+  forall (uni : Lexer.uclass) (eng : engines) (fuel : nat) (inv me q : bool) (u1 u2 u3 : str) (finv : bool) (cur : gv) (pinv pme pq : bool) (pu pus a b : str) (doc doc' ga gb ga' gb' : gv) (da db da' db' : dec) (qa qb qa' qb' : Q), obj_row a doc ga -> obj_row b doc gb -> obj_row a doc' ga' -> obj_row b doc' gb' -> num_carrier ga da -> num_carrier gb db -> num_carrier ga' da' -> num_carrier gb' db' -> source_value ga = Some qa -> source_value gb = Some qb -> source_value ga' = Some qa' -> source_value gb' = Some qb' -> qa == qa' -> qb == qb' -> (forall name : string, In name comparison_names -> Eval.eval uni eng (S (S (S (S (S fuel))))) (Eval.NPath (call_path inv me a q u1 finv name [Ast.FPPath (key_path pinv pme b pq pu pus)] u2 u3)) cur doc = Eval.eval uni eng (S (S (S (S (S fuel))))) (Eval.NPath (call_path inv me a q u1 finv name [Ast.FPPath (key_path pinv pme b pq pu pus)] u2 u3)) cur doc') /\ (forall name : string, In name arithmetic_names -> exists r r' : dec, Eval.eval uni eng (S (S (S (S (S fuel))))) (Eval.NPath (call_path inv me a q u1 finv name [Ast.FPPath (key_path pinv pme b pq pu pus)] u2 u3)) cur doc = Ok (VDec r) /\ Eval.eval uni eng (S (S (S (S (S fuel))))) (Eval.NPath (call_path inv me a q u1 finv name [Ast.FPPath (key_path pinv pme b pq pu pus)] u2 u3)) cur doc' = Ok (VDec r') /\ dval r == dval r').
+Proof. exact Mpath.Proofs.E2E.E2E_storage_invariant_path. Qed.
+Print Assumptions C05_E2E_storage_invariant_path.
+
+Theorem C05_E2E_storage_invariant_literal_vs_path :
+  forall (uni : Lexer.uclass) (eng : engines) (fuel : nat) (inv me q : bool) (u1 u2 u3 : str) (finv : bool) (cur : gv) (pinv pme pq : bool) (pu pus a b : str) (d : dec) (doc doc' ga ga' gb' : gv) (da da' db' : dec) (qa qa' qb' : Q), obj_row a doc ga -> obj_row a doc' ga' -> obj_row b doc' gb' -> num_carrier ga da -> num_carrier ga' da' -> num_carrier gb' db' -> source_value ga = Some qa -> source_value ga' = Some qa' -> source_value gb' = Some qb' -> qa == qa' -> dval d == qb' -> (forall name : string, In name comparison_names -> Eval.eval uni eng (S (S (S (S (S fuel))))) (Eval.NPath (call_path inv me a q u1 finv name [Ast.FPNum d] u2 u3)) cur doc = Eval.eval uni eng (S (S (S (S (S fuel))))) (Eval.NPath (call_path inv me a q u1 finv name [Ast.FPPath (key_path pinv pme b pq pu pus)] u2 u3)) cur doc') /\ (forall name : string, In name arithmetic_names -> exists r r' : dec, Eval.eval uni eng (S (S (S (S (S fuel))))) (Eval.NPath (call_path inv me a q u1 finv name [Ast.FPNum d] u2 u3)) cur doc = Ok (VDec r) /\ Eval.eval uni eng (S (S (S (S (S fuel))))) (Eval.NPath (call_path inv me a q u1 finv name [Ast.FPPath (key_path pinv pme b pq pu pus)] u2 u3)) cur doc' = Ok (VDec r') /\ dval r == dval r').
+Proof. exact Mpath.Proofs.E2E.E2E_storage_invariant_literal_vs_path. Qed.
+Print Assumptions C05_E2E_storage_invariant_literal_vs_path.
